@@ -169,17 +169,30 @@ func TestC11Unions(t *testing.T) {
 				}
 			}
 			// decode the equivalent document
-			for _, format := range []string{"json", "header"} {
+			for _, format := range []string{"json", "header", "json/reversed", "header/reversed"} {
+				// (members in declaration order and in the opposite order on the wire: key order carries no meaning)
+				wire := tree
+				if strings.HasSuffix(format, "/reversed") {
+					if len(tree.Obj) < 2 {
+						continue
+					}
+					wire = refcodec.Obj()
+					for i := len(tree.Obj) - 1; i >= 0; i-- {
+						wire.Obj = append(wire.Obj, tree.Obj[i])
+					}
+					format = strings.TrimSuffix(format, "/reversed")
+				}
 				c := c11Case{Kind: "union-decode", Type: n.Full(), Format: format, Subset: subset}
 				evaluated++
 				rec.Case("union-decode", fmt.Sprintf("members_set=%d", min3(len(subset))))
-				rec.NonTrivial("union-decode", hx.J(c), func() any { return c })
 				var doc string
 				if format == "json" {
-					doc = refcodec.RenderJSON(tree, refcodec.JSONOpts{})
+					doc = refcodec.RenderJSON(wire, refcodec.JSONOpts{})
 				} else {
-					doc = refcodec.RenderROR2(tree, refcodec.ROR2Opts{Flavour: refcodec.Header})
+					doc = refcodec.RenderROR2(wire, refcodec.ROR2Opts{Flavour: refcodec.Header})
 				}
+				c.Text = doc
+				rec.NonTrivial("union-decode", hx.J(c), func() any { return c })
 				var err error
 				var dv reflect.Value
 				if p, pv, st := hx.Try(func() { dv, err = decode(ty, doc, format) }); p {
